@@ -327,6 +327,12 @@ func encodeChunk(entries [][]byte) []byte {
 	return buf.Bytes()
 }
 
+// DecodeChunk / EncodeChunk are exported for the chain-level state-sync simulation.
+func DecodeChunk(data []byte) ([][]byte, error) { return decodeChunk(data) }
+
+// EncodeChunk is the inverse of DecodeChunk.
+func EncodeChunk(entries [][]byte) []byte { return encodeChunk(entries) }
+
 func bytesReader(b []byte) io.Reader { return bytes.NewReader(b) }
 
 func chunkBytes(ctx context.Context, cr checkpoint.Creator, cm *checkpoint.ChunkMetadata) ([]byte, error) {
